@@ -15,6 +15,11 @@ EXTENDS Naturals, Sequences, FiniteSets, TLC
 CONSTANTS NNodes,     \* number of nodes of the base document
           MaxMut,     \* length of mutation sequences explored exhaustively
           PairStride, \* second mutations only at nodes n with n % PairStride = Seed % PairStride
+          FirstStride,\* ... and only after a first mutation at a node n with n % FirstStride = Seed % FirstStride
+          VarStride,  \* the non-default run configurations (other entry points, switch off, YAML) of a tree operator only at nodes n with n % VarStride = Seed % VarStride
+          SparseStride, \* sparse bases are mutated only at nodes n with n % SparseStride = Seed % SparseStride
+          RefStride,  \* reference operators (27 of them, in families of near relatives) only at nodes n with (n \div 6) % RefStride = Seed % RefStride
+          NumStride,  \* numeric keyword operators only at schema slots n with n % NumStride = Seed % NumStride
           LexStride,  \* lexical operators only at nodes n with n % LexStride = Seed % LexStride (a seeded slice of the nodes)
           Seed
 
@@ -36,6 +41,21 @@ SchemaOps == {"schema_bad_pattern_example", "schema_type_empty_list", "schema_ty
               "schema_additional_props_string", "schema_required_unknown_and_dup", "schema_allof_empty", "schema_oneof_null_member",
               \* a component schema that is a composition of itself, with a default / example to be checked against it
               "schema_self_allof_default", "schema_self_anyof_example", "schema_self_not_default"}
+(* Numeric keyword operators (also written into a schema object): the product of the schema's type, a multipleOf, and a value  *)
+(* that document validation checks against the schema (default / example / enum member) -- divisors that are zero, fractional   *)
+(* (an integer conversion of 0.5 is 0), tiny, negative or beyond float64, against integral, fractional and huge values -- and    *)
+(* the length / count keywords given numbers that are no counts (negative, fractional, beyond 64 bits, beyond float64).           *)
+(* The operator's name carries its parameters ("num:<type>:<multipleOf>:<site>:<value>", "len:<keyword>:<value>").                *)
+NumTypes == {"integer", "number", "none"}
+NumDivisors == {"0", "0.5", "1e-9", "-2", "1e400"}
+NumSites == {"default", "example", "enum"}
+NumValues == {"7", "7.5", "1e400"}
+NumOps == {"num:" \o t \o ":" \o d \o ":" \o w \o ":" \o v : t \in NumTypes, d \in NumDivisors, w \in NumSites, v \in NumValues}
+LenKeywords == {"minLength", "maxLength", "minItems", "maxItems", "minProperties", "maxProperties"}
+LenValues == {"-1", "1.5", "18446744073709551616", "1e400"}
+LenOps == {"len:" \o k \o ":" \o v : k \in LenKeywords, v \in LenValues}
+KeywordOps == NumOps \cup LenOps
+SchemaSlots == 30        \* node indices 1..SchemaSlots reach every schema object of the base document (index modulo their number)
 (* Lexical operators: the other half of "all byte strings".  The operators above mutate the JSON TREE of the document and   *)
 (* render it canonically; these write the same near-valid document with the features of the two CONCRETE SYNTAXES that no   *)
 (* tree mutation produces (the loader reads JSON first and falls back on YAML, so JSON-like text that is not JSON is YAML    *)
@@ -93,7 +113,7 @@ JsonOnly(op) == op \in {"json_nul_escape", "json_lone_surrogate", "json_swapped_
                       "json_trailing_comma", "json_trailing_comma_obj", "json_single_quotes", "json_unquoted_key",
                       "json_comment", "json_nan", "json_infinity", "json_plus", "json_bare_dot",
                       "json_control_in_string"}
-Ops == TypeOps \cup StructOps \cup RefOps \cup SchemaOps \cup LexOps
+Ops == TypeOps \cup StructOps \cup RefOps \cup SchemaOps \cup LexOps \cup KeywordOps
 
 Entries == {"data", "datapath", "file"}
 
@@ -121,19 +141,35 @@ vars == <<muts, entry, allow, yaml, base>>
 
 Init == muts = <<>> /\ entry \in Entries /\ allow \in BOOLEAN /\ yaml \in BOOLEAN /\ base \in Bases
 
+VariantOps == RefOps \cup {"to_null", "delete", "truncate_here"}
 Mutate(op, n) ==
    /\ Len(muts) < MaxMut
    /\ (Len(muts) >= 1 => (n % PairStride = Seed % PairStride          \* pairs on a seeded slice of the nodes,
                            /\ entry = "data" /\ allow /\ ~yaml))      \* JSON through LoadFromData only
-   /\ (base # FullBase => (muts = <<>> /\ n <= SparseNodes /\ op \in SparseOps))
+   /\ (Len(muts) >= 1 => muts[1].node % FirstStride = Seed % FirstStride)
+   /\ (base # FullBase => (muts = <<>> /\ n <= SparseNodes /\ n % SparseStride = Seed % SparseStride /\ op \in SparseOps))
+   \* the run configurations of a single mutation (the same conditions as in Emitted, tested here so that TLC does not build
+   \* states nobody emits): the default one -- LoadFromData, switch on, JSON -- for every operator at every node; the others
+   \* for the operators where location handling and the YAML reader matter, on a seeded slice of the nodes
+   /\ ((yaml \/ ~allow) => entry = "data")
+   /\ ((base = FullBase /\ op \notin LexOps /\ (yaml \/ ~allow \/ entry # "data"))
+          => (op \in VariantOps /\ n % VarStride = Seed % VarStride))
+   /\ (op \in LexOps => (entry = "data" /\ allow /\ (YamlOnly(op) => yaml) /\ (JsonOnly(op) => ~yaml)))
    /\ base \notin BlobBases                                          \* a blob has no nodes to mutate
    /\ (op \in LexOps => n % LexStride = Seed % LexStride)
+   \* (the realiser varies some operators with n modulo 2, 3 or 5 -- pointer with / without fragment, which absent keyword, ... --
+   \*  so the slice takes BLOCKS of six consecutive nodes: every residue occurs in every block)
+   /\ (op \in RefOps /\ muts = <<>> => (n \div 6) % RefStride = Seed % RefStride)
+   /\ (op \in SchemaOps /\ muts = <<>> => n <= SchemaSlots)        \* a schema operator goes to schema object (n modulo their number): higher n repeat
+   /\ (op \in KeywordOps => (n <= SchemaSlots /\ n % NumStride = Seed % NumStride /\ muts = <<>>))      \* singly, on a slice of the schema objects
    /\ (Len(muts) >= 1 => (op \notin LexOps /\ muts[1].op \notin LexOps))   \* lexical operators singly (the pair level is tree x tree)
    /\ muts' = Append(muts, [op |-> op, node |-> n])
    /\ UNCHANGED <<entry, allow, yaml, base>>
 
 (* (the bound is tested before the operators are enumerated: a finished sequence costs TLC one comparison, not |Ops| x NNodes) *)
-Next == Len(muts) < MaxMut /\ base \notin BlobBases /\ \E op \in Ops, n \in 1..NNodes : Mutate(op, n)
+Extendable == IF muts = <<>> THEN TRUE ELSE (/\ muts[1].node % FirstStride = Seed % FirstStride /\ muts[1].op \notin LexOps \cup KeywordOps
+                               /\ base = FullBase /\ entry = "data" /\ allow /\ ~yaml)
+Next == Len(muts) < MaxMut /\ base \notin BlobBases /\ Extendable /\ \E op \in Ops, n \in 1..NNodes : Mutate(op, n)
 Spec == Init /\ [][Next]_vars
 
 (* every case is run through LoadFromData as JSON with external refs allowed; the other entry  *)
